@@ -115,6 +115,14 @@ def handleEam (op : String) (j : Json) : Except String Json := do
                   (← getRat j "cut") (← getNat j "nr") (← getRat j "cutrho") (← getNat j "nrho")) true
     | "tabeam" => return tabeamJ (tabeam fs (← getNat j "nrho") (← getRat j "drho") (← getNat j "nr") (← getRat j "dr") els pairs)
     | "tabeamTab" => return tabeamJ (tabeamTab fs els pairs (← getRat j "cut") (← getNat j "nr") (← getRat j "cutrho") (← getNat j "nrho"))
+    | "funcfl" =>
+      match els with
+      | [e] =>
+        let f := funcfl (← getNat j "nrho") (← getRat j "drho") (← getNat j "nr") (← getRat j "dr") e (← getNat j "pairFid")
+        return Json.mkObj [("z", intJ f.z), ("mass", ratJ f.mass), ("a0", ratJ f.a0), ("lat", f.lat), ("nrho", natJ f.nrho), ("drho", ratJ f.drho),
+          ("nr", natJ f.nr), ("dr", ratJ f.dr), ("cutoff", ratJ f.cutoff), ("embed", arrJ (f.embed.map slotsJ)), ("charge", arrJ (f.charge.map slotsJ)),
+          ("dens", arrJ (f.dens.map slotsJ))]
+      | _ => throw "funcfl takes exactly one element"
     | "excelPair" => return arrJ [sheetJ (pairSheet pairs (← getRat j "cut") (← getNat j "nr"))]
     | "excelEam" => return arrJ ((excelEam fs els pairs (← getRat j "cut") (← getNat j "nr") (← getRat j "cutrho") (← getNat j "nrho")).map sheetJ)
     | _ => throw s!"unknown eam op {op}"
